@@ -2,7 +2,8 @@
 
 R-C12-1  must-not taint: party_capacity and gens_capacity reach only loop bounds / take counts in BulletproofGens::new, never the label
          bytes or the chain seeds; chains are consumed as prefixes
-R-C12-2  padding and table have one origin (prover and verifier)      [= R-C01-2]
+R-C12-2  padding and table have one origin (prover and verifier)      [= R-C01-2]; the padding count, read as a polynomial over bit
+         length, aggregation factor and capacity (helper calls looked through), is 2*bits*capacity - 2*bits*aggregation factor
 R-C12-3  the prefix comparisons of the vector generators are made against the selected largest member and zip the two iterators directly
 R-C12-5  the capacity-dependent code (consistency function, generator iterators, padding) has no undischarged panic site
 R-C12-4  must-not taint: nothing absorbed into the proof transcript depends on the aggregation capacity of the parameters object
@@ -16,7 +17,7 @@ from .C03 import prefix_guards
 
 LEVEL_TEXT = ('Static analysis (must-not dependence of generator labels on capacities; one-origin dataflow rule for table and padding at both mixed MSMs; '
               'guard normal forms of the prefix comparisons). Decides that generator j of party i is derived independently of the requested capacities and that '
-              'prover and verifier size their static scalar vectors from the same statement whose table they use. Does not decide numeric equality of '
+              'prover and verifier size their static scalar vectors from the same statement whose table they use, padded by exactly the number of table entries the proof does not use. Does not decide numeric equality of '
               'verification results across capacities. Also: the verifier core rejects on nothing that mentions the capacity of the parameters '
               '(R-C01-6), and the redundant comparison of vector generators across batch members, if present, is a prefix comparison.')
 ASSUMPTIONS = ['an `enumerate` index is independent of the bound of the enumerated range', 'Iterator::take yields a prefix']
